@@ -1,6 +1,7 @@
 //! rvh — the verification harness for al8n/rarena. Drives the real code and logs; never judges.
 mod common;
 mod conc;
+mod handles;
 mod openf;
 mod probe;
 mod seq;
@@ -16,6 +17,7 @@ fn main() {
     "conc" => conc::run(&args[2..]),
     "open" => openf::run(&args[2..]),
     "probe" => probe::run(&args[2..]),
+    "handles" => handles::run(&args[2..]),
     other => {
       eprintln!("unknown subcommand {other}");
       std::process::exit(2);
